@@ -96,7 +96,7 @@ pub struct RunState {
     pub replay: Vec<u16>,
     pub replay_pos: usize,
     pub replay_misses: u64,
-    pub prio: Vec<u32>,
+    pub prio: Vec<i64>,
     pub change_points: Vec<u64>,
     pub streak_task: u32,
     pub streak_len: u32,
